@@ -229,7 +229,7 @@ PROPS = {
             {"name": "store", "mode": "asg", "quick": 1500, "thorough": 40000, "args": []},
         ],
         "relevant": c12_relevant,
-        "lean_modules": ["Pumpkin.Model.Propagation", "Pumpkin.Model.PropagationCompile", "Pumpkin.Model.Assignments", "Pumpkin.Model.AssignmentsSound", "Pumpkin.Model.AssignmentsState"],
+        "lean_modules": ["Pumpkin.Model.Propagation", "Pumpkin.Model.PropagationCompile", "Pumpkin.Model.Assignments", "Pumpkin.Model.AssignmentsSound", "Pumpkin.Model.AssignmentsState", "Pumpkin.Model.AssignmentsRefine"],
         "level_text": "Proof: store_bounds_tight / store_domain_is_trail / store_post_exact / store_backtrack_restores: Model/Assignments.lean mirrors the domain store engine/cp/assignments.rs (chronological lower/upper-bound update lists, hole updates with their bound-moved flags, bounds skipping over holes until the domain is empty, one trail entry per real change, [x == v] split in two, synchronise popping and undoing entries) and for EVERY sequence of operations (creation at the root, posting any predicate incl. ones which empty a domain, new levels, backtracking): the domains are the replay of the trail, a value is in a domain iff the declared interval and every trail predicate allow it, posting removes exactly the excluded values, reported bounds of a non-empty domain are values of the domain, and backtracking restores the earlier state exactly; tied exactly: random operation sequences are run on the real Assignments through a forwarding hook and every observable after every operation (bounds, value sets, results, trail entries, bounds / membership at every past trail position, evaluate and the trail position / decision level of every predicate, the unfixed list of synchronise) must equal the model's (`asg` records, 1500 sequences per quick run). root_state_encloses: the modelled root state Pg.rootFix (constraints posted one after the other, decomposed into propagators as pumpkin_solver::constraints does — compile_fwd proves the decomposition keeps the meaning, compile_wf the variables — each propagated to the fixpoint of the propagator models of Model/Propagation.lean, pass_ok) contains the value of every variable in every solution, for every model of the modelled constraint kinds; tied exactly: the real root domains of every variable after posting (observed through a recording brancher) must equal the model's (`fix root` records, 1500 models per quick run), and the oracle checks them against the solution set. bounds_enclose / view_bounds_enclose (accepted bounds enclose every solution), view_rule (AffineView bound rule with swap on negative scale is enclosing), more_constraints_fewer_solutions. Tie to code: after every posting step lower_bound/upper_bound of every variable and of random views and get_literal_value are read from the real solver: must enclose all oracle solutions, lie in the declared domain, be monotone along the sequence, and equal the view rule applied to the inner bounds.",
         "level_note": LEVEL_NOTE_COMMON,
     },
